@@ -19,7 +19,10 @@ func c03Universe(which int) []TNode {
 	common := []string{".git/x", ".terraform/y", ".terraform/modules/m", "sub/.git/x", "sub/.terraform/modules/m", "sub/.terraform/z", "sub/a"}
 	var files []string
 	if which == 1 {
-		files = []string{"a/a", "a/b", "a/ab/a", "a/ab/b", "ab/a", "ab/b/a", "ab/b/ab", "b", "aab", "a+b", "a.b", "axb", "(a)", "é", "a/é", "A", "B/a", "a/n\nl", "n\nl/b"}
+		files = []string{"a/a", "a/b", "a/ab/a", "a/ab/b", "ab/a", "ab/b/a", "ab/b/ab", "b", "aab", "a+b", "a.b", "axb", "(a)", "é", "a/é", "A", "B/a"}
+	} else if which == 3 {
+		// names with a newline (Pack consumers only: the bundle's content hash refuses such names)
+		files = []string{"a/b", "b", "a/n\nl", "n\nl/b", "a/ab/b"}
 	} else {
 		files = []string{"a", "ab", "b/a", "b/ab", "b/b/a", "aab/b/a", "aab/a", "a+b/a", "a.b/b", "axb/a", "axb/b/ab", "é/a", "b/é", "A/b"}
 	}
@@ -238,6 +241,20 @@ func RunC03(tier string) int {
 		one = append(one, []string{r})
 	}
 	runJobs("1-rule files (full alphabet)", mk(one, []int{1, 2}, consumers))
+	{
+		var js []job
+		for _, j := range mk(append(append([][]string{}, misc...), one...), []int{3}, consumers) {
+			if !j.cons.Ext {
+				js = append(js, j)
+			}
+		}
+		for _, r1 := range []string{"a/", "b", "*", "**/b", "n*/"} {
+			for _, r2 := range []string{"!a/b", "!b", "!other", "!n*/b"} {
+				js = append(js, mk([][]string{{r1, r2}}, []int{3}, consumers[:1])...)
+			}
+		}
+		runJobs("names containing a newline (universe 3)", js)
+	}
 	{
 		// the same rule files without a final newline, and 2-rule files over a small core
 		var js []job
